@@ -154,3 +154,51 @@ Definition usp_cell (total size : Z) (cell : nat) : prog Z :=
   rd_bytes cell 4 [] (fun bs =>
     let r := le4 bs in
     if r =? 0 then Ret 0 else Chk (r + size <=? total) (Tick (Ret r))).
+
+(* ---------- string / range routines on a pointer CELL of sandbox memory (tainted_volatile<T*>) ---------- *)
+Fixpoint pmap {A B} (f : A -> B) (p : prog A) : prog B :=
+  match p with
+  | Ret a => Ret (f a)
+  | Tick k => Tick (pmap f k)
+  | Rd off k => Rd off (fun b => pmap f (k b))
+  | Chk b k => Chk b (pmap f k)
+  | Flt => Flt
+  end.
+
+(* ONE fetch of the cell; null -> [knull]; a representation outside the window is not observable (fault) *)
+Definition with_cell {A} (woff : Z -> option nat) (cell : nat) (knull : prog A) (k : nat -> prog A) : prog A :=
+  rd_bytes cell 4 [] (fun bs =>
+    let r := le4 bs in
+    if r =? 0 then knull else match woff r with None => Flt | Some o => k o end).
+
+(* after the fix: commit: the pointer is copied out of sandbox memory once, then the routine for a pointer held in
+   application memory runs on that copy *)
+Definition cv_string_std_cell (woff : Z -> option nat) (w cell : nat) : prog (list Z) :=
+  with_cell woff cell (Tick (Ret [])) (fun o => cv_string_std w o).
+Definition cv_string_unique_cell (woff : Z -> option nat) (w cell : nat) : prog (option (list Z)) :=
+  with_cell woff cell (Tick (Ret None)) (fun o => pmap Some (cv_string_unique w o)).
+Definition cv_range_cell (woff : Z -> option nat) (w elsz cell count : nat) : prog (option (list (list Z))) :=
+  with_cell woff cell (Chk (negb (Nat.eqb count 0)) (Tick (Tick (Ret None)))) (fun o => pmap Some (cv_range w elsz o count)).
+
+(* before the fix (D18): the unique_ptr flavour fetched the cell again for the range check and once more per element;
+   a null at the second fetch made the helper return a null buffer through which the terminator was then written *)
+Fixpoint cell_loop {A} (woff : Z -> option nat) (total : Z) (cell : nat) (i n : nat) (acc : list Z) (k : list Z -> prog A) : prog A :=
+  match n with
+  | O => k (rev acc)
+  | S n' => Tick (rd_bytes cell 4 [] (fun bs =>
+      let r := le4 bs in
+      Chk (negb (r =? 0)) (Chk (r + Z.of_nat i <? total)
+        (match woff (r + Z.of_nat i) with
+         | None => Flt
+         | Some o => Rd o (fun b => cell_loop woff total cell (S i) n' (b :: acc) k)
+         end))))
+  end.
+Definition cv_string_unique_cell_refetch (woff : Z -> option nat) (total : Z) (w cell : nat) : prog (option (list Z)) :=
+  let after_len (len : nat) : prog (option (list Z)) :=
+    Tick (Tick (rd_bytes cell 4 [] (fun bs2 =>
+      let r2 := le4 bs2 in
+      if r2 =? 0 then Flt      (* the terminator is written through the null buffer the helper returned *)
+      else Chk (r2 + Z.of_nat (S len) <=? total)
+             (cell_loop woff total cell 0 (S len) [] (fun bs => Tick (Ret (Some (set_last0 bs)))))))) in
+  Tick (with_cell woff cell (Ret None) (fun o1 => Tick (strlen_prog (w - o1) o1 0 after_len))).
+
